@@ -33,14 +33,21 @@ def Cached.clearing (c : Cached) (f : Enforcer → Enforcer × Res) : Cached × 
   let r := f c.inner
   ({ inner := r.1, cache := [] }, r.2)
 
-/-- a management call: the `ClearCache` event is emitted iff the store changed -/
-def Cached.mgmt (c : Cached) (f : Enforcer → Enforcer × Res) (changed : Res → Bool) : Cached × Res :=
+/-- a management call: the `ClearCache` event is emitted iff the model-side store operation reported a
+change (internal_api.rs: right after the store update, *before* the role-link update that may still
+fail) — `changed` sees the enforcer before the call and the call's outcome -/
+def Cached.mgmt (c : Cached) (f : Enforcer → Enforcer × Res) (changed : Enforcer → Enforcer × Res → Bool) : Cached × Res :=
   let r := f c.inner
-  ({ inner := r.1, cache := if changed r.2 then [] else c.cache }, r.2)
+  ({ inner := r.1, cache := if changed c.inner r then [] else c.cache }, r.2)
 
 def resChanged : Res → Bool
   | .bool b => b
   | .rules b _ => b
   | _ => false
+
+/-- the call reported a change, or the store is different afterwards (a call that fails in the link update
+after the store changed returns an error, yet the store changed and the cache was cleared) -/
+def storeOrResChanged (e : Enforcer) (r : Enforcer × Res) : Bool :=
+  resChanged r.2 || decide (r.1.store ≠ e.store)
 
 end Casbin
